@@ -139,7 +139,9 @@ pub trait FromMeta: Sized {
                 op: syn::UnOp::Neg(_),
                 expr: ref operand,
                 ..
-            }) if matches!(**operand, Expr::Lit(_)) => {
+            }) if matches!(*peel_groups(operand), Expr::Lit(_)) => {
+                // `Lit`'s parser looks through the invisible groups of a `-$lit`, just as it
+                // does when the value is the last item of the stream.
                 match syn::parse2::<Lit>(quote::ToTokens::to_token_stream(expr)) {
                     Ok(lit) => Self::from_value(&lit),
                     Err(_) => Err(Error::unexpected_expr_type(expr)),
@@ -167,6 +169,14 @@ pub trait FromMeta: Sized {
     fn from_bool(value: bool) -> Result<Self> {
         Err(Error::unexpected_type("bool"))
     }
+}
+
+/// The expression inside any number of invisible groups; see `FromMeta::from_expr`.
+fn peel_groups(mut expr: &Expr) -> &Expr {
+    while let Expr::Group(ref group) = *expr {
+        expr = &group.expr;
+    }
+    expr
 }
 
 // FromMeta impls for std and syn types.
